@@ -32,7 +32,7 @@ def writes : Table := [
   ["Parse·func", "index", "result[index]", "result", "make"],
   ["getSortedKeys", "deref", "*sortKeys", "sortKeys", "assert(call:Get)"],
   ["getSortedKeys", "index", "(*sortKeys)[index]", "sortKeys", "assert(call:Get)"],
-  ["jsonPathParser.deleteRootIdentifier", "field", "aggregateFunction.param", "aggregateFunction", "assert(alias(targetNode))"],
+  ["jsonPathParser.deleteRootIdentifier", "field", "aggregateFunction.param", "aggregateFunction", "assert(param:targetNode)"],
   ["jsonPathParser.loadParams", "field", "p.params", "p", "receiver"],
   ["jsonPathParser.loadParams", "field", "p.paramsList", "p", "receiver"],
   ["jsonPathParser.pop", "field", "p.params", "p", "receiver"],
